@@ -848,6 +848,11 @@ impl Prop for C18 {
     fn needs_binary(&self) -> bool {
         true
     }
+    fn fuzz_decoders(&self) -> Vec<&'static str> {
+        // decided on separate processes (faults / schedules): in-process coverage feedback has
+        // nothing to steer, see DESIGN §10
+        Vec::new()
+    }
     fn check(&self, t: &mut Tape, ctx: &mut Ctx) -> Verdict {
         let w = world(ctx);
         let kind = t.weighted(&[5, 5, 4, 3, 3, 5]);
